@@ -6,7 +6,7 @@
    Spec:  C04.delete_spec = the document with exactly the designated children
    removed (everything else untouched, relative order kept by construction). *)
 From Coq Require Import List ZArith NArith Bool String.
-From YP Require Import Outcome PyStr PyVal Doc Searches Mutate C04spec C04lists C04delete.
+From YP Require Import Outcome PyStr PyVal Doc Searches Mutate C04spec C04lists C04delete C04order C04merge.
 Import ListNotations.
 Open Scope string_scope.
 
@@ -20,6 +20,48 @@ Theorem C04_delete_exact_partial : forall d cs,
   delete_nodes cs d = Done (delete_spec d (map pc_pair (del_order cs))).
 Proof. exact delete_exact. Qed.
 Print Assumptions C04_delete_exact_partial.
+
+(* The guard is implied by what the read side promises for one path: in gather
+   order the coordinates locate distinct nodes, in document order within each
+   parent (C04spec.doc_ordered, computable; "results come in document order,
+   each once" is the read-side theorem that discharges it). *)
+Theorem C04_guard_from_document_order : forall d ps,
+  wf_doc d -> doc_ordered d ps = true -> no_dup_no_disorder d (rev ps) = true.
+Proof. exact ordered_guard. Qed.
+Print Assumptions C04_guard_from_document_order.
+
+(* Hence: whatever was gathered (Collector nesting included), if the
+   coordinates in gather order locate distinct nodes in document order within
+   each parent, exactly those nodes are removed and nothing else changes. *)
+Theorem C04_delete_exact_ordered : forall d cs,
+  wf_doc d ->
+  doc_ordered d (rev (map pc_pair (del_order cs))) = true ->
+  delete_nodes cs d = Done (delete_spec d (rev (map pc_pair (del_order cs)))).
+Proof. exact delete_exact_ordered. Qed.
+Print Assumptions C04_delete_exact_ordered.
+
+(* ... in particular for the plain coordinates of a single path without Collectors. *)
+Theorem C04_delete_exact_single_path : forall d ps,
+  wf_doc d ->
+  doc_ordered d (map pc_pair ps) = true ->
+  delete_nodes (map (fun p => CNode p false) ps) d = Done (delete_spec d (map pc_pair ps)).
+Proof. exact delete_exact_plain. Qed.
+Print Assumptions C04_delete_exact_single_path.
+
+(* The dict branch of _delete_nodes first tests for a YAML-merge-key removal
+   (parentref is the anchor name of a mapping AND the parent has merge keys);
+   Mutate.delete_nodes_mg models that test (mg = the mappings that have merge
+   keys), the removal itself is outside the model.  In a document without merge
+   keys - and more generally whenever no processed coordinate passes the test -
+   the run is the ordinary one all theorems here speak about. *)
+Theorem C04_no_merge_keys : forall cs d, delete_nodes_mg [] cs d = delete_nodes cs d.
+Proof. exact delete_nodes_mg_nil. Qed.
+Print Assumptions C04_no_merge_keys.
+
+Theorem C04_merge_test_not_passed : forall mg ps d,
+  no_ymk_hit mg ps d = true -> run_del_mg mg ps d = run_del ps d.
+Proof. exact run_del_mg_no_hit. Qed.
+Print Assumptions C04_merge_test_not_passed.
 
 (* Deleting the document root is refused with a YAML Path error and changes
    nothing (the root coordinate is the one the loop meets first). *)
@@ -60,6 +102,36 @@ Proof. vm_compute. repeat split. Qed.
 Example C04_nested_nonvacuous :
   no_dup_no_disorder doc1 (map pc_pair (del_order [plain 0 (PStr "a"); plain 2 (PInt 1)])) = true /\
   delete_nodes [plain 0 (PStr "a"); plain 2 (PInt 1)] doc1 = Done (NMap (ct 0) [ (sk 6 "b", iv 7 5) ]).
+Proof. vm_compute. repeat split. Qed.
+
+(* non-vacuity of the document-order hypothesis: a.* style gather a[0], a[1], a[2], a[3] and b, in document order;
+   a[-1] alone in its parent; and it is NOT satisfied by a duplicate or by a reversed pair *)
+Example C04_ordered_nonvacuous :
+  doc_ordered doc1 [(Some 2%N, PInt 0); (Some 2%N, PInt 1); (Some 2%N, PInt 2); (Some 2%N, PInt 3); (Some 0%N, PStr "b")] = true /\
+  doc_ordered doc1 [(Some 0%N, PStr "a"); (Some 2%N, PInt (-1))] = true /\
+  doc_ordered doc1 [(Some 2%N, PInt 0); (Some 2%N, PInt 0)] = false /\
+  doc_ordered doc1 [(Some 2%N, PInt 2); (Some 2%N, PInt 0)] = false /\
+  doc_ordered doc1 [(Some 2%N, PInt (-2)); (Some 2%N, PInt 3)] = false /\
+  delete_nodes (map (fun p => CNode p false)
+                  [mkpc (Some 2%N) (PInt 0); mkpc (Some 2%N) (PInt 1); mkpc (Some 2%N) (PInt 2); mkpc (Some 2%N) (PInt 3);
+                   mkpc (Some 0%N) (PStr "b")]) doc1
+  = Done (NMap (ct 0) [ (sk 1 "a", NSeq (ct 2) []) ]).
+Proof. vm_compute. repeat split. Qed.
+
+(* {m1: 1, base: &m1 {x: 1}, u: {z: 3 + merged x}}: key m1 is spelled like the anchor of the mapping `base`;
+   the root has no merge keys (only u, oid 9, has), so `m1` is an ordinary delete; the same key inside u would
+   enter the merge-key removal *)
+Definition docM : node :=
+  NMap (ct 0) [ (sk 1 "m1", iv 2 1);
+                (sk 3 "base", NMap (mkinfo 4 (Some "m1") true None) [ (sk 5 "x", iv 2 1) ]);
+                (sk 8 "u", NMap (ct 9) [ (sk 10 "z", iv 11 3); (sk 5 "x", iv 2 1) ]) ].
+Example C04_merge_test_nonvacuous :
+  is_ymk_anchor (PStr "m1") docM = true /\
+  no_ymk_hit [9%N] [mkpc (Some 0%N) (PStr "m1")] docM = true /\
+  delete_nodes_mg [9%N] [plain 0 (PStr "m1")] docM
+  = Done (NMap (ct 0) [ (sk 3 "base", NMap (mkinfo 4 (Some "m1") true None) [ (sk 5 "x", iv 2 1) ]);
+                        (sk 8 "u", NMap (ct 9) [ (sk 10 "z", iv 11 3); (sk 5 "x", iv 2 1) ]) ]) /\
+  delete_nodes_mg [9%N] [plain 9 (PStr "m1")] docM = Failed docM (PyCrash NotImplemented).
 Proof. vm_compute. repeat split. Qed.
 
 Example C04_root_nonvacuous :
